@@ -11,7 +11,7 @@ import (
 
 func init() {
 	register(&Property{ID: "C17", Run: runC17,
-		Explain: "Gossip bounds as a gate table (operator-exact comparisons against named parameters, edge-cut dominance), the heartbeat schedule as must-pass-through, and promise accounting: B1/B2 IHAVE message and id budgets (return before any effect), B3 per-IHAVE id cap, B4 only unseen ids requested, B5 the ask is truncated to the remaining budget, the budget is charged and the promise is taken from the truncated list, B6 unwanted ids never served, B7 GossipRetransmission cap, B8/B9 IDONTWANT message cap and a running id cap across the whole RPC, B10 stored TTL, B11 per-peer IHAVE truncation to MaxIHaveLength, B12 IDONTWANT only for messages >= threshold, to mesh peers with the feature, never to the sender, B13 gossip ids only from the first HistoryGossip slots, B14 Shift always expires the last slot, shifts, and clears slot 0, B15 HistoryGossip <= HistoryLength validated, B16 the unwanted map is keyed by computeChecksum everywhere; heartbeat calls clearBackoff/clearIHaveCounters/clearIDontWantCounters/applyIwantPenalties/sendGraftPrune/flush/Shift on every path (flush before Shift) and emitGossip for every mesh and fanout topic with the pushed-to peers excluded; messages are cached before recipients are chosen; promises are fulfilled on deliver/validate/reject (except the two signature reasons), voided on throttle, counted broken only when expired, and penalised only by applyIwantPenalties; HandleRPC runs all five control handlers and replies when any part is non-empty. (B17) a dropped IWANT voids the promise recorded for it and every drop reaches the tracers. NOT decided: window arithmetic over heartbeats as counts over histories.",
+		Explain: "Gossip bounds as a gate table (operator-exact comparisons against named parameters, edge-cut dominance), the heartbeat schedule as must-pass-through, and promise accounting: B1/B2 IHAVE message and id budgets (return before any effect), B3 per-IHAVE id cap, B4 only unseen ids requested, B5 the ask is truncated to the remaining budget, the budget is charged and the promise is taken from the truncated list, B6 unwanted ids never served, B7 GossipRetransmission cap, B8/B9 IDONTWANT message cap and a running id cap across the whole RPC, B10 stored TTL, B11 per-peer IHAVE truncation to MaxIHaveLength, B12 IDONTWANT only for messages >= threshold, to mesh peers with the feature, never to the sender, B13 gossip ids only from the first HistoryGossip slots, B14 Shift always expires the last slot, shifts, and clears slot 0, B15 HistoryGossip <= HistoryLength validated, B16 the unwanted map is keyed by computeChecksum everywhere; heartbeat calls clearBackoff/clearIHaveCounters/clearIDontWantCounters/applyIwantPenalties/sendGraftPrune/flush/Shift on every path (flush before Shift) and emitGossip for every mesh and fanout topic with the pushed-to peers excluded; messages are cached before recipients are chosen; promises are fulfilled on deliver/validate/reject (except the two signature reasons), voided on throttle, counted broken only when expired, and penalised only by applyIwantPenalties; HandleRPC runs all five control handlers and replies when any part is non-empty. (B17) a dropped IWANT voids the promise recorded for it and every drop reaches the tracers. (B18) a message put into the cache twice keeps one history entry. NOT decided: window arithmetic over heartbeats as counts over histories.",
 		Assume:  []string{"heartbeat runs once per HeartbeatInterval (timer)", "MessageCache is only used from the event loop"},
 		Mutants: []Mutant{
 			{Name: "ihave-msg-budget-ge", File: "gossipsub.go", Old: "\tif gs.peerhave[p] > gs.params.MaxIHaveMessages {", New: "\tif gs.peerhave[p] > gs.params.MaxIHaveMessages+1 {", Expect: "B1"},
